@@ -152,9 +152,13 @@ def describe(core, asms, area_ref, oftf_truth=None):
             xb_ok = 0
     area = float(core.gap_params['total area'])
     ascale = 8 * max(area, area_ref or area)
-    tot = float(np.sum(core._sc_mfr))
-    split = [[q(float(core._sc_mfr[i] / tot), 4.0),
-              q(float(core.gap_params['area'][i] / area), 4.0)]
+    # the flow of every cell against (gap flow) x (its share of the area):
+    # the total is the gap flow the core was given, not the sum of the cells
+    gf = float(core.gap_flow_rate)
+    ref = gf if gf > 0 else 1e-9
+    split = [[q(min(4.0, float(core._sc_mfr[i]) / ref), 4.0),
+              q(float(core.gap_params['area'][i] / area) if gf > 0 else 0.0,
+                4.0)]
              for i in range(core.n_sc)]
     L = core.gap_params['L']
     lsym = 1
